@@ -329,7 +329,7 @@ START_STOP_STATE_EFFECTS = ('starter.start_applications', 'starter.start_applica
                             'stopper.stop_application', 'stopper.restart_application', 'stopper.stop_process',
                             'stopper.restart_process', 'commander.next', 'conciliate_conflicts', 'fsm.set_state',
                             'fsm.next', 'rpc_handler.send_restart_all', 'rpc_handler.send_shutdown_all',
-                            'rpc_handler.send_state_event', 'supervisor_updater.update_numprocs',
+                            'rpc_handler.send_state_event', 'send_state_event', 'publish_status', 'supervisor_updater.update_numprocs',
                             'supervisor_updater.enable_program', 'supervisor_updater.disable_program')
 
 
